@@ -84,7 +84,11 @@ PROP = dict(
          "x3 densities, multigraph with parallel edges/unsorted rows, 2-row grid, signed/zero edge weights with self loops) x "
          "3..8 vertices x 2..4 parts (striped, blocks, one-sided, random) x 5 vertex-weight families x max_imbalance (None / 0 / "
          "0.05 / 0.25 / 0.5 / 1 / 3 / 8 / random) x rayon pool 1..4 x scheduling policy (uniform, round-robin, adversarial = "
-         "workers frozen inside lock/check/gain windows, bursts, bounded preemption); one random case in ten runs with f64 vertex "
+         "workers frozen inside lock/check/gain windows, bursts, bounded preemption); two cap-sensitive families, one random case in ten each, built by rejection sampling so that the VALUE of the cap "
+         "decides (a vertex has a positive gain into a part q with load[q] <= cap < load[q] + w, while a looser cap -- heaviest "
+         "input part, or ideal over the loaded parts only -- would leave every worker headroom for it): `weightless_*` (a part "
+         "holds no weight: unused id below the maximum or only zero-weight vertices) and `beyondtol_*` (input already beyond "
+         "the tolerance: heaviest part above (1+x)*ideal, Some(x) incl. Some(0.0)); one random case in ten runs with f64 vertex "
          "weights (fractions of the integer ones): no replay, only the weight-independent clauses are checked on its output; distinct = distinct (graph, weights, "
          "partition, pool, cap, recorded schedule); non-trivial = at least two workers and at least one vertex moved",
     class_names={0: "Ok, no move", 1: "Ok, moved", 2: "panic", 3: "hang", 4: "outside the contract", 5: "error",
